@@ -10,7 +10,8 @@ class C40(vlib.Spec):
     model_vo = ["theories/Proto/RaftNet.vo"]
     props_vo = "theories/Props/C40.vo"
     theorems = ["C40_raft_term_monotone", "C40_raft_vote_once_per_term", "C40_raft_commit_monotone",
-                "C40_raft_election_safety", "C40_raft_leader_append_only"]
+                "C40_raft_election_safety", "C40_raft_leader_append_only", "C40_raft_sms_partial", "C40_raft_log_wf",
+                "C40_raft_committed_prefix_stable"]
     crate, group, binary = "h_raft", "hydro", "h_raft"
     imports = "From HV Require Import Proto.RaftNet."
     level = "other"
@@ -30,7 +31,8 @@ class C40(vlib.Spec):
     explanation = (
         "Partial proof + correspondence. Proved in Coq for ALL executions of the network model over the transcribed "
         "raft_step: term monotone, voted_for changes at most once per term, commit index monotone, Election Safety "
-        "(<=1 leader per term, quorum intersection), Leader Append-Only (see theorems). "
+        "(<=1 leader per term, quorum intersection), Leader Append-Only, log well-formedness, and stability of each "
+        "member's own committed prefix (the a=b diagonal of SMS) (see theorems). "
         "State Machine Safety (C40_raft_sms) is stated in full but not proved; missing: Log Matching and Leader Completeness. "
         "Every run additionally compares the real raft_step field by field with the model on generated calls and "
         "evaluates election safety / log matching / SMS on whole cluster runs executed with the real raft_step. "
